@@ -4,7 +4,7 @@
     Gallina translations of the Go functions, regenerated from /repo on every
     run (coq/Generated.v). *)
 From Coq Require Import ZArith List Bool.
-From Hts Require Import Base.Prim Generated Model.Itf8Spec Model.CramStream Proofs.Itf8 Proofs.Ltf8 Proofs.CramStream Proofs.CodecMore Proofs.CramScript.
+From Hts Require Import Base.Prim Generated Model.Itf8Spec Model.CramStream Proofs.Itf8 Proofs.Ltf8 Proofs.CramStream Proofs.CodecMore Proofs.CramScript Proofs.CramRoundtrip.
 Open Scope Z_scope.
 
 (** Every int32: Encode into any buffer with room for five bytes succeeds,
@@ -194,6 +194,28 @@ Theorem stream_script_invariant :
     end.
 Proof. exact er_run_never_blocks. Qed.
 Print Assumptions stream_script_invariant.
+
+(** Write, then read from a stream: the bytes Encode writes for any int32
+    ([itf8_wire v], see itf8_encode_any_buffer) or int64, followed by anything,
+    are read back by the stream readers as the value, and the reader stops
+    exactly behind them. *)
+Theorem stream_roundtrip :
+  (forall v rest tail, - 2^31 <= v < 2^31 -> all_bytes rest = true -> tail <> 0 ->
+     er_itf8 (mkER (itf8_wire v ++ rest) tail 0) = Ok (v, mkER rest tail 0)) /\
+  (forall v rest tail, - 2^63 <= v < 2^63 -> all_bytes rest = true -> tail <> 0 ->
+     er_ltf8 (mkER (ltf8_spec_encode v ++ rest) tail 0) = Ok (v, mkER rest tail 0)).
+Proof. exact (conj stream_itf8_roundtrip stream_ltf8_roundtrip). Qed.
+Print Assumptions stream_roundtrip.
+
+(** An array of any int32 values written as count followed by the elements is
+    read back by itf8slice as exactly those elements (any length below 2^31,
+    by induction on the list), leaving what follows untouched. *)
+Theorem stream_slice_roundtrip :
+  forall vs rest tail,
+    Forall (fun v => - 2^31 <= v < 2^31) vs -> zlen vs < 2^31 -> all_bytes rest = true -> tail <> 0 ->
+    er_itf8slice (mkER (itf8_array vs ++ rest) tail 0) = Ok (vs, mkER rest tail 0).
+Proof. exact stream_itf8slice_roundtrip. Qed.
+Print Assumptions stream_slice_roundtrip.
 
 (** Non-vacuity: a concrete five-byte case. *)
 Example itf8_minus5 :
